@@ -42,7 +42,7 @@ pub fn run(ctx: &mut Ctx) {
     for (n, ok) in r2::selftest() {
         ctx.selftest(&n, ok);
     }
-    ctx.require(&["annex_kat", "fixed_nonce_exact", "free_nonce", "ref_made_accepted", "openssl_made_accepted", "id_default", "id_explicit", "id_empty", "id_8191", "id_too_long", "id_non_ascii_utf8", "msg_empty", "edge_key", "random_key", "e_ge_n", "key_from_constructor", "key_from_gen_keypair", "key_with_jacobian_public_point", "retry:r=0", "retry:r+k=n", "retry:s=0", "digest_regular", "id_len_threshold", "msg_beyond_2^16_bits", "verifier_key_from_compressed_bytes", "id_length_sweep", "signature_with_chosen_leading_bytes"]);
+    ctx.require(&["annex_kat", "fixed_nonce_exact", "free_nonce", "ref_made_accepted", "openssl_made_accepted", "id_default", "id_explicit", "id_empty", "id_8191", "id_too_long", "id_non_ascii_utf8", "msg_empty", "edge_key", "random_key", "e_ge_n", "key_from_constructor", "key_from_gen_keypair", "key_with_jacobian_public_point", "retry:r=0", "retry:r+k=n", "retry:s=0", "digest_regular", "id_len_threshold", "msg_beyond_2^16_bits", "verifier_key_from_compressed_bytes", "id_length_sweep", "signature_with_chosen_leading_bytes", "id_with_surrounding_whitespace"]);
     let c = r2::curve();
 
     // --- Annex example through the library with the nonce injected
@@ -224,6 +224,23 @@ pub fn run(ctx: &mut Ctx) {
             ctx.class(&format!("sig_prefix:{}", name));
             fixed_case(ctx, &d, None, DEFAULT_ID, &msg, &k, "signature_with_chosen_leading_bytes");
             ref_made_case(ctx, &d, None, DEFAULT_ID, &msg, &k, 0);
+        }
+    }
+    // --- signer IDs with leading / trailing blanks, tabs, newlines: hashed exactly as given
+    {
+        let mut pw = ctx.prng("ws_ids");
+        for (k, id) in ["alice@example.com ", " alice@example.com", "alice@example.com\n", "\talice", " ", "  ", "a b", "\r\n"].iter().enumerate() {
+            let sub = pw.next();
+            if !ctx.mine(k as u64) {
+                continue;
+            }
+            let mut p = Prng::new(sub, "ws");
+            let d = rand_scalar(&mut p, &(&c.n - 1u32));
+            let k_ = rand_scalar(&mut p, &c.n);
+            let msg = p.bytes(12);
+            ctx.class("id_with_surrounding_whitespace");
+            fixed_case(ctx, &d, Some(id), id, &msg, &k_, "id_with_surrounding_whitespace");
+            ref_made_case(ctx, &d, Some(id), id, &msg, &k_, 0);
         }
     }
     // --- signer ID lengths 0..=130: the hash input of ZA (194 + |ID| bytes) takes every residue modulo the SM3 block size
